@@ -143,7 +143,7 @@ PROPS = {
                             faults=("cancel",), maxfaults=1, must_cover=("Cancel", "ScriptStep", "JoinReturn", "AwaitReturn"))],
                "thorough": [mc("Fail-peer-2x2", actors=("a1", "a2"), extra_actors="PeerActors", extra_handles="PeerHandles", ops=("send", "call", "stop"), scripts="ScriptsPeer",
                                cfgs="CfgsB1", faults=("cancel",), maxfaults=1, must_cover=("Cancel", "ScriptStep")),
-                            mc("Fail-own-2x3", maxops=3, ops=("send", "call", "await", "join", "stopped"), scripts="ScriptsFail", cfgs="CfgsFailOwn", kinds="InitKindsOwn", faults=("cancel",), maxfaults=1),
+                            mc("Fail-own-2x3", maxops=3, ops=("send", "call", "join", "stopped"), scripts="ScriptsFail", cfgs="CfgsFailOwn", kinds="InitKindsOwn", faults=("cancel",), maxfaults=1),
                             mc("Fail-3x2", clients=C3, ops=("send", "call", "await", "halt", "upgrade"), scripts="ScriptsFail", cfgs="CfgsFail", kinds="InitKindsAW", faults=("cancel",), maxfaults=2)]},
         "families": [("fail", 300, 3000), ("tree", 80, 800), ("timers", 80, 800), ("registry", 250, 2500), ("awaiters", 60, 600), ("mix", 120, 1200)],
         "relevant": r'"how":"panic"|"ev":"cancel"|"e":"err"|h_abandon', "relevant_min": 1,
@@ -152,8 +152,8 @@ PROPS = {
         "invariants": ["C07", "C03"],
         "mc": {"quick": [mc("Restart-1x3", clients=("c1",), maxops=3, ops=("send", "call", "restart"), scripts="ScriptsRestart", cfgs="CfgsStrat2", must_cover=("RestartTaken", "RestartStopped", "RestartRefresh", "RestartStarted")),
                          mc("Restart-2x2", ops=("send", "restart"), scripts="ScriptsPlain", cfgs="CfgsStrat2", must_cover=("RestartTaken", "RestartRefresh"))],
-               "thorough": [mc("Restart-2x3", maxops=3, ops=("call", "restart", "stop"), scripts="ScriptsRestart", cfgs="CfgsStrat2"),
-                            mc("Restart-3x2", clients=C3, ops=("send", "call", "restart"), scripts="ScriptsRestart", cfgs="CfgsStrat2", kinds="InitKindsSC")]},
+               "thorough": [mc("Restart-2x3", maxops=3, ops=("call", "restart", "stop"), scripts="ScriptsRestart", cfgs="CfgsStrat"),
+                            mc("Restart-3x2", clients=C3, ops=("call", "restart"), scripts="ScriptsRestart", cfgs="CfgsStrat", kinds="InitKindsSC")]},
         "dev_demo": [("D3", mc("Timers-race-1x1", clients=("c1",), maxops=1, ops=("send", "stop", "drop"), scripts="ScriptsTimers", cfgs="CfgsTimersQ", horizon=4))],
         "families": [("restart", 250, 2500), ("timers", 150, 1500), ("broker", 80, 800), ("mix", 120, 1200)],
         "relevant": r'"op":"restart"|ctx_restart', "relevant_min": 1,
@@ -166,9 +166,9 @@ PROPS = {
                             scripts="ScriptsStop", cfgs="CfgsSvc", names="NamesMore")],
                "thorough": [mc("Reg-release-2x2", actors=("a1", "r1", "r2"), ops=("from_registry", "register", "unregister", "try_from_registry", "already_running", "stop"),
                                scripts="ScriptsPlain", cfgs="CfgsSvc", names="NamesMore", profile="release", must_cover=("RegIssue", "RegBody", "TryFromRegistry")),
-                            mc("Reg-2x3", maxops=3, actors=("a1", "r1", "r2", "r3"), ops=("from_registry", "register", "unregister", "try_from_registry", "already_running", "stop", "replace"),
+                            mc("Reg-2x3", maxops=3, actors=("a1", "r1", "r2", "r3"), ops=("from_registry", "register", "unregister", "stop"),
                                scripts="ScriptsPlain", cfgs="CfgsSvc", names="NamesMore"),
-                            mc("Reg-3x2", clients=C3, actors=("a1", "r1", "r2", "r3"), ops=("from_registry", "setup", "unregister", "stop", "try_from_registry"),
+                            mc("Reg-3x2", clients=C3, actors=("a1", "r1", "r2", "r3"), ops=("from_registry", "unregister", "stop"),
                                scripts="ScriptsPlain", cfgs="CfgsSvc", names="NamesMore")]},
         "dev_demo": [("D1", mc("Reg-2x2", actors=("a1", "r1", "r2"), ops=("from_registry", "register", "unregister", "stop"), scripts="ScriptsPlain", cfgs="CfgsSvc", names="NamesMore")),
                      ("D4", mc("Reg-2x2", actors=("a1", "r1", "r2"), ops=("from_registry", "already_running", "stop"), scripts="ScriptsPlain", cfgs="CfgsSvc", names="NamesMore"))],
@@ -182,8 +182,8 @@ PROPS = {
                             scripts="ScriptsPub", cfgs="CfgsSub1", must_cover=("RegIssue", "RegBody", "RegPingReturn", "ScriptStep", "HandleBegin"))],
                "thorough": [mc("Broker-2x2", actors=("a1", "a2", "r1"), extra_actors="SubActors", extra_handles="SubHandles", ops=("publish", "send", "drop"),
                                scripts="ScriptsBroker", cfgs="CfgsSub"),
-                            mc("Broker-2x3", maxops=3, actors=("a1", "a2", "r1"), extra_actors="SubActors", extra_handles="SubHandles", ops=("publish", "send", "drop", "stop"),
-                               scripts="ScriptsBroker", cfgs="CfgsSub")]},
+                            mc("Broker-2x3", maxops=3, actors=("a1", "a2", "r1"), extra_actors="SubActors", extra_handles="SubHandles", ops=("publish", "drop"),
+                               scripts="ScriptsPub", cfgs="CfgsSub1")]},
         "families": [("broker", 300, 3000), ("mix", 120, 1200)],
         "release_families": [("broker", 60, 600)],
         "relevant": r'"src":"broker"', "relevant_min": 1,
